@@ -238,6 +238,10 @@ def h_crop_region(lin, roi):
     import odc.geo.geobox as gbx
     from odc.geo.geom import BoundingBox
 
+    if symx.concrete_mode() and roi == "pixgeom":
+        from .c16 import setup_fakegeom
+
+        setup_fakegeom()  # the replay uses the same vertex-list geometry, on plain floats
     a, b, d, e = LIN[lin]
     c, f = Real("c"), Real("f")
     A = Affine(rconst(a), rconst(b), c, rconst(d), rconst(e), f)
@@ -525,7 +529,10 @@ def h_zoom_to_res(res0, res1):
     g = gbx.GeoBox((ny, nx), Affine(rconst(rx), 0.0, c, 0.0, rconst(ry), f), "epsg:3857")
     g2 = g.zoom_to(resolution=resxy_(rconst(qx), rconst(qy)))
     A = g2.affine
-    prove("pixel_size", And(ex(A.a) == qx, ex(A.e) == qy, ex(A.b) == 0, ex(A.d) == 0))
+    if symx.concrete_mode():  # the replay runs in doubles
+        prove("pixel_size", And(abs(ex(A.a) - qx) <= abs(qx) * F(1, 10**12), abs(ex(A.e) - qy) <= abs(qy) * F(1, 10**12), ex(A.b) == 0, ex(A.d) == 0))
+    else:
+        prove("pixel_size", And(ex(A.a) == qx, ex(A.e) == qy, ex(A.b) == 0, ex(A.d) == 0))
     bb, bb2 = g.boundingbox, g2.boundingbox
     tol = F(1, 100)
     L, B_, R, T = (ex(v) for v in bb.bbox)
